@@ -10,12 +10,14 @@ use stun_rs::{
 pub mod c01;
 pub mod c02;
 pub mod c09;
+pub mod c14;
 
 pub fn run(prop: &str, ctx: &mut Ctx) -> Result<(), String> {
     match prop {
         "C01" => c01::run(ctx),
         "C02" => c02::run(ctx),
         "C09" => c09::run(ctx),
+        "C14" => c14::run(ctx),
         _ => return Err(format!("unknown property {}", prop)),
     }
     Ok(())
